@@ -6,6 +6,7 @@ import Driver.BlockProto
 import Driver.SortProto
 import Driver.TriviaProto
 import Driver.CallProto
+import StyluaModel.Model.Cost
 /-
 `modeld`: one request per line on stdin, one answer per line on stdout.
 The harness runs the real code on the same requests and diffs the answers.
@@ -64,6 +65,10 @@ def handle (line : String) : String :=
   | ["trivia", eol, body] => Driver.TriviaProto.handle eol body
   | ["callform", m, o, f] => Driver.CallProto.handle m o f
   | ["fnspace", m] => Driver.CallProto.handleSpace m
+  | ["cost", kind, d] =>
+      match d.toNat? with
+      | some n => if kind == "chain" then toString (StyluaModel.Cost.chain n) else if kind == "call" then toString (StyluaModel.Cost.call n) else "bad-op"
+      | none => "bad-op"
   | ["faithful", i] => Driver.ExprProto.handleFaithful i
   | ["semeq", i, o] => Driver.ExprProto.handleSem i o
   | _ => "bad-op"
